@@ -13,8 +13,8 @@ from tools.lib import common
 
 SOURCES = ["src/ampform/sympy/__init__.py", "src/ampform/sympy/_decorator.py"]
 PROP_MODULES = ["Ampverif.Props.C18"]
-N_CORR = {"quick": 60, "thorough": 700}
-N_ORACLE = {"quick": 80, "thorough": 1500}
+N_CORR = {"quick": 45, "thorough": 700}
+N_ORACLE = {"quick": 60, "thorough": 1500}
 RULE = ("distinct (term, operation) pairs of the correspondence whose term has >= 2 summation indices or nesting "
         "depth >= 2, plus distinct oracle terms with >= 2 indices or nesting depth >= 2")
 
@@ -76,7 +76,9 @@ class C18Property:
             "SymPy's constructors (Add/Mul/Pow canonicalisation) and subs/xreplace on built-in nodes: executed, not modelled",
         ]
         chk.assumptions += [
-            "pool values are rational literals (the property's quantifier); a pool that mentions another index symbol is probed and recorded only",
+            "wfSums (decidable, evaluated by the model on every generated term): pool values are pool-sum-free TERMS (numbers, symbols, sums, OUTER "
+            "summation indices) that mention neither an index of the same sum nor a symbol bound inside its summand; the excluded cases "
+            "(sibling index in a pool, captured symbol) are generated on purpose, compared structurally with the model, probed and recorded",
             "index symbols of one PoolSum are pairwise distinct (a repeated symbol has no cartesian-product reading; probed and recorded)",
             "substituted terms mention no summation index (capture); the captured case is probed and recorded",
         ]
@@ -141,11 +143,15 @@ class C18Property:
                  "unused_indices": 0}
         ctx = m1.Ctx()
         fails, notes = [], []
-        all_syms = [m1.to_sympy(s, ctx) for s in corr.FREE + corr.IDX]
+        where = {"pool-only": 0, "pool+summand": 0, "summand-only_or_absent": 0}
+        all_syms = [m1.to_sympy(s, ctx) for s in corr.FREE + corr.IDX + corr.POOLSYM]
         todo = corr.shape_cases(rng, ctx, stats) + [corr.gen_case(rng, stats) for _ in range(n)]
         for k, c in enumerate(todo):
             real = m1.to_sympy(c["term"], ctx)
             reqs = [[(m1.to_sympy(a, ctx), m1.to_sympy(b, ctx)) for a, b in sub["pairs"]] for sub in c["subs"]]
+            for sub in c["subs"]:
+                kind = sub["kind"].split("->")[0]
+                where[kind if kind in where else "summand-only_or_absent"] += 1
             try:
                 f, nt = oracle.check_term(real, rng, reqs, all_syms)
             except Exception as e:  # noqa: BLE001
@@ -158,6 +164,7 @@ class C18Property:
             chk.count(("oracle", k) if (c["depth"] >= 2 or len(c["top_idx"]) >= 2) else None)
         fails += oracle.float_pool_cases(rng)
         chk.info("oracle_terms", len(todo))
+        stats["substituted_symbol_occurs_in"] = where
         chk.info("oracle_input_distribution", stats)
         chk.info("oracle_excluded_cases_met", {"count": len(notes), "examples": notes[:4]})
         return fails
@@ -203,22 +210,30 @@ MANIFEST = {
     "design_ref": "DESIGN.md §3 C18, §2.3 M1",
     "text": (
         "Proof. Kernel-checked theorems about the import-free model Ampverif.Model.Expr, which follows PoolSum.__new__/evaluate/doit/"
-        "free_symbols/cleanup/_eval_subs/_xreplace line by line: for EVERY summand (nested pool sums, sums, products, powers, function "
-        "applications, folded nodes), every number of distinct index symbols, every rational pool (duplicates, singletons), every "
-        "environment and every interpretation of the uninterpreted functions: value(evaluate) = nested finite sum = flat sum over "
-        "itertools.product (induction over the index list); value(doit) = value for every nesting depth and doit with fuel >= nesting depth leaves no pool sum; free symbols = free(summand) minus "
-        "indices and the value depends on them only; value(e) = (product of the pool sizes of unused indices) * value(cleanup e), hence "
-        "cleanup preserves the value iff-style proviso 'unused indices have one value' (the real code violates the unconditional clause: known "
-        "finding, witness theorem); subs of a non-index symbol by a term mentioning no index commutes with evaluate as an equality of terms; "
-        "subs/xreplace of an index is the identity (sound variant); decide-witnesses for the unsound variant, for cleanup and for a repeated "
-        "index symbol. Unbounded in all inputs. Excluded (hypotheses, probed on the real code and recorded): repeated index symbols, pools "
-        "mentioning index symbols, capturing substitutions."
+        "free_symbols/cleanup/_eval_subs/_xreplace line by line, with pool VALUES that are TERMS (numbers, symbols, sums, outer summation indices: "
+        "they are arguments of the PoolSum, so free_symbols/subs/xreplace reach them and evaluate/cleanup insert them): for EVERY summand (nested "
+        "pool sums — also ones whose pools mention the outer indices —, sums, products, powers, function applications, folded nodes), every number "
+        "of distinct index symbols, every pool (duplicates, singletons, symbolic and compound values), every environment and every interpretation of "
+        "the uninterpreted functions: value(evaluate) = nested finite sum over the pool values EVALUATED IN THE ENVIRONMENT = flat sum over "
+        "itertools.product (induction over the index list; substitution lemma 'subs = environment update' for nested sums with symbolic pools); "
+        "value(doit) = value for every nesting depth (doit_nested_dependent_pools: inner pools are evaluated with the outer indices bound) and doit with "
+        "fuel >= nesting depth leaves no pool sum; free symbols = (free(summand) + free(pool values)) minus indices and the value depends on them only; "
+        "value(e) = (product of the pool sizes of unused indices) * value(cleanup e), hence cleanup preserves the value under the proviso 'unused "
+        "indices have one value' (the real code violates the unconditional clause: known finding, witness theorem); subs of a non-index symbol by a "
+        "term mentioning no index commutes with evaluate as an equality of terms ALSO when the symbol occurs in a pool or only in a pool; subs(x,a) = "
+        "environment update and xreplace = simultaneous update as values (pools included), hence subs-then-doit = doit-then-subs as values; "
+        "subs/xreplace of an index is the identity (sound variant); decide-witnesses for the unsound variant, for cleanup, for a repeated index symbol "
+        "and for a pool mentioning a sibling index. Unbounded in all inputs. Standing hypothesis wfSums (decidable, part of the model): distinct index "
+        "symbols, pool values pool-sum-free that mention neither an index of the same sum nor a symbol bound inside the summand; substituted terms "
+        "mention no bound symbol. What it excludes is generated, compared structurally with the model, probed on the real code and recorded."
     ),
     "level_note": (
         "Trusted: Lean kernel + Mathlib (axioms propext, Classical.choice, Quot.sound); the model is hand-written (not generated) and is tied to "
-        "src/ampform/sympy/__init__.py by running both on seeded random terms (0-4 indices, nesting <= 3, random substitution maps incl. ones "
-        "hitting indices): results compared with == after rebuilding the model's output with the real SymPy constructors, and the Lean "
-        "denotation compared with the exact rational value of the real .doit() result; the variant (bound-index protection, shallow "
+        "src/ampform/sympy/__init__.py by running both on seeded random terms (0-4 indices, nesting <= 3, pools of rationals, pool-only symbols, "
+        "symbols shared with the summand, outer indices and compound values — inner pools depending on outer indices with and without the index "
+        "in the inner summand —, random substitution maps incl. ones hitting indices, pool-only and pool+summand symbols; the distribution is in the "
+        "evidence): results compared with == after rebuilding the model's output with the real SymPy constructors, and — for every term the model's "
+        "wfSums accepts — the Lean denotation compared with the exact rational value of the real .doit() result; the variant (bound-index protection, shallow "
         "_get_arguments) is inferred from the real code by probes. SymPy's Add/Mul/Pow canonicalisation and subs/xreplace on built-in "
         "nodes are executed, not modelled; the S-expression converter and the Python mirror of the evaluator are trusted harness code."
     ),
